@@ -3,6 +3,7 @@ use crate::engine::PropDef;
 pub mod c01;
 pub mod c02;
 pub mod c02_producers;
+pub mod c03;
 pub mod c04;
 pub mod c05;
 pub mod c10;
@@ -10,7 +11,7 @@ pub mod c11;
 pub mod c20;
 
 pub fn all() -> Vec<PropDef> {
-    vec![c01::def(), c02::def(), c04::def(), c05::def(), c10::def(), c11::def(), c20::def()]
+    vec![c01::def(), c02::def(), c03::def(), c04::def(), c05::def(), c10::def(), c11::def(), c20::def()]
 }
 
 /// entry point of `tvv child …` (used by the checks that need process isolation)
